@@ -371,10 +371,89 @@ impl Prop for Repetition {
     }
 }
 
+/// A root reached by a double pawn push that no pawn can answer en passant is, by the rules of the game, the
+/// same position as the one without the target: once it was searched, the memory must know it under both
+/// spellings (a later line re-enters it by an ordinary move, without a target). Seeded change C17g.
+#[derive(Clone, Debug, Serialize, Deserialize)]
+pub struct PushCase {
+    pub source: super::c03::Source,
+    pub file: u8,
+    pub target_first: bool,
+    pub depth: u8,
+    pub seed: u64,
+    pub hasher_seed: u64,
+}
+
+pub struct DoublePushRoots;
+
+impl Prop for DoublePushRoots {
+    type Case = PushCase;
+    fn name(&self) -> &'static str {
+        "double_push_roots_are_recognised"
+    }
+    fn strategy(&self, _: &Ctx) -> BoxedStrategy<PushCase> {
+        (super::c03::sparse_source(), 0u8..8, any::<bool>(), 1u8..=2, any::<u64>(), any::<u64>())
+            .prop_map(|(source, file, target_first, depth, seed, hasher_seed)| PushCase { source, file, target_first, depth, seed, hasher_seed })
+            .boxed()
+    }
+    fn test(&self, _: &Ctx, case: &PushCase, loc: &mut Local) -> Result<(), String> {
+        use crate::oracle::rules::{Col, Kind};
+        let Some(mut p) = super::c03::source_pos(&case.source) else { return Ok(()) };
+        // construction: the side that is NOT to move has just played a double push on the chosen file
+        let mover = p.stm.opp();
+        let f = case.file as usize;
+        let (r2, r3, r4) = if mover == Col::W { (1usize, 2usize, 3usize) } else { (6, 5, 4) };
+        for r in [r2, r3, r4] {
+            if matches!(p.b[r * 8 + f], Some((_, Kind::K))) {
+                loc.class("king_on_the_push_file_squares");
+                return Ok(());
+            }
+            p.b[r * 8 + f] = None;
+        }
+        p.b[r4 * 8 + f] = Some((mover, Kind::P));
+        // nobody can capture en passant: no pawn of the side to move beside the pushed pawn
+        for df in [-1i32, 1] {
+            let nf = f as i32 + df;
+            if (0..8).contains(&nf) && p.b[r4 * 8 + nf as usize] == Some((p.stm, Kind::P)) {
+                p.b[r4 * 8 + nf as usize] = None;
+            }
+        }
+        p.ep = None;
+        // castling rights whose rook or king the construction removed cannot stay
+        p.cas = [false; 4];
+        let mut with_target = p.clone();
+        with_target.ep = Some(r3 * 8 + f);
+        if !p.is_legal_position() || !with_target.is_legal_position() || !p.has_legal_move() {
+            loc.class("constructed_position_not_legal_or_terminal");
+            return Ok(());
+        }
+        let (first, second) = if case.target_first { (&with_target, &p) } else { (&p, &with_target) };
+        let spec = SearchSpec { depth: Some(case.depth), seed: case.seed, workers: 1, sched_seed: None, cancel_after: None };
+        let (o, back) = search::run(first, &spec, search::new_artifact(case.hasher_seed, GEOM), usize::MAX);
+        loc.eval();
+        let Some(artifact) = back else {
+            return Err(format!("search of '{}' ({:?}) panicked: {:?}", first.fen(), spec, o.panic));
+        };
+        if !verif::history_contains(&artifact, &glue::state_direct(first)) {
+            return Err(format!("after searching '{}' the search memory does not record it as seen", first.fen()));
+        }
+        if !verif::history_contains(&artifact, &glue::state_direct(second)) {
+            return Err(format!(
+                "after searching '{}' the search memory does not recognise '{}' as seen: the two differ only in an en-passant target that no pawn can capture, they are the same position of the game",
+                first.fen(), second.fen()
+            ));
+        }
+        loc.class(if case.target_first { "searched_with_target_asked_without" } else { "searched_without_target_asked_with" });
+        loc.nontrivial(&(p.fen4(), case.target_first));
+        loc.sample(|| json!({"searched": first.fen(), "asked": second.fen(), "depth": case.depth}));
+        Ok(())
+    }
+}
+
 pub fn plan(ctx: &Ctx) -> Plan {
     let t = ctx.tier;
     Plan {
-        props: vec![(Box::new(Repetition), t.pick(5_000, 300_000))],
+        props: vec![(Box::new(Repetition), t.pick(5_000, 300_000)), (Box::new(DoublePushRoots), t.pick(3_000, 100_000))],
         rule: "tablebase positions (KQK, KRK, KPK, also colour-mirrored) where the side to move mates in exactly 3 or 5 \
                plies and at least two first moves keep the mate; a generated non-empty subset S of the mate-preserving \
                successors is put into the repetition history (cfg hook record_history) leaving at least one preserving \
@@ -391,7 +470,11 @@ pub fn plan(ctx: &Ctx) -> Plan {
                POS_INF; in every case a winning terminal evaluation whose first move re-enters a recorded position is a \
                violation, and a claimed mate's first move must leave the opponent tablebase-lost. Non-trivial = distinct \
                cases where the same search with an empty history chooses a recorded move (the history changed the \
-               answer), and all 'every successor recorded' cases.",
+               answer), and all 'every successor recorded' cases. Second part (double_push_roots_are_recognised): sparse generated \
+               positions into which a just-played double pawn push that nobody can capture en passant is constructed; the position is \
+               searched (depth 1-2) under one spelling (with or without the en-passant target) and the memory must then record it as seen \
+               under the other spelling as well (cfg hook history_contains) - by the rules both are the same position, and a later line \
+               re-enters it without a target.",
         assumptions: &[
             "recorded positions are identified by placement, side, rights and en-passant target (3-man positions have neither rights nor targets)",
             "interleavings are sampled by schedule seed",
